@@ -95,6 +95,11 @@ pub struct Scenario {
     /// of one more accept() call of the listener's single acceptor task
     #[serde(default)]
     pub acceptor_tasks: bool,
+    /// Some((from, to)): every packet leaving the server host in wire rounds from..to is lost (far beyond
+    /// any retransmit budget: handshakes time out on both ends). Connect outcomes are not judged in such
+    /// a run; reclamation is.
+    #[serde(default)]
+    pub blackhole: Option<(u32, u32)>,
 }
 
 pub struct C13;
@@ -618,7 +623,13 @@ impl<'a> Sim<'a> {
             let idx = self.pkt_idx;
             self.pkt_idx += 1;
             self.observe_wire(&p);
-            let f = self.fate(idx);
+            let mut f = self.fate(idx);
+            if let Some((a, b)) = self.sc.blackhole {
+                if self.round >= a as u64 && self.round < b as u64 && self.sc.hosts[0].iter().any(|ip| parse_ip(ip) == p.src) {
+                    f = Some(FaultKind::Drop);
+                    self.rep.faults.inc("blackhole_drop");
+                }
+            }
             self.note(|| format!("wire #{idx} {}{}", desc(&p), f.map(|f| format!("  <= {f:?}")).unwrap_or_default()));
             // the first pure ACK of a client->server 4-tuple is the handshake ACK (coverage probe)
             if kind(&p) == PktKind::Ack {
@@ -833,6 +844,9 @@ fn other_listener_covers(sim: &Sim<'_>, dst: SocketAddr, from: u64, to: u64) -> 
 }
 
 fn judge_connects(sim: &mut Sim<'_>) {
+    if sim.sc.blackhole.is_some() {
+        return;
+    }
     let now = sim.round;
     let clean = sim.sc.faults.is_empty() && !sim.sc.reorder;
     for c in 0..sim.cs.len() {
@@ -1107,7 +1121,7 @@ fn execute(sim: &mut Sim<'_>) {
     // (b') a task parked in accept() is woken when a connection becomes ready: with no fault on the wire and
     // every connect resolved, a listener cannot have both a parked acceptor task and an established
     // connection nobody was handed
-    if sc.faults.is_empty() && !sc.reorder {
+    if sc.faults.is_empty() && !sc.reorder && sc.blackhole.is_none() {
         sim.poll_accepts();
         for l in 0..sim.ls.len() {
             if sim.ls[l].sock.is_none() || sim.ls[l].tasks.is_empty() {
@@ -1148,7 +1162,9 @@ fn execute(sim: &mut Sim<'_>) {
     for c in 0..sim.cs.len() {
         let st = &sim.cs[c];
         let Some(l) = sc.conns[c].to else { continue };
-        if st.result.as_ref().map(|r| r.0 == "Ok").unwrap_or(false) && st.accepted_round.is_none() && sim.ls[l].sock.is_some() {
+        // (with a black hole beyond every retransmit budget the server end may have given up on a handshake
+        // the connector saw completed)
+        if sc.blackhole.is_none() && st.result.as_ref().map(|r| r.0 == "Ok").unwrap_or(false) && st.accepted_round.is_none() && sim.ls[l].sock.is_some() {
             let msg = format!("c{c}: connect {:?} -> {:?} returned Ok at r{}, listener l{l} stayed bound and accepted everything it was offered, yet this connection was never handed out", st.client_local, st.target, st.result.as_ref().unwrap().1);
             sim.fail("NotAccepted", msg);
             return;
@@ -1358,7 +1374,14 @@ fn gen_scenario_raw(rng: &mut Rng, tier: Tier) -> Scenario {
             }
         }
     }
-    Scenario { guarded, cfg, hosts, listeners, conns, timeline: tl, faults, reorder: rng.chance(1, 8), reuse: rng.chance(1, 3), no_count_check: false, acceptor_tasks: rng.chance(1, 3) }
+    // one timeline in ten: for a while nothing the server host sends arrives (SYN-ACKs, ACKs, FINs, RSTs)
+    let blackhole = if rng.chance(1, 10) {
+        let a = rng.range(0, start as u64 + 4) as u32;
+        Some((a, a + cfg.retx_threshold * (cfg.retx_max + 3) + rng.range(0, 6) as u32))
+    } else {
+        None
+    };
+    Scenario { guarded, cfg, hosts, listeners, conns, timeline: tl, faults, reorder: rng.chance(1, 8), reuse: rng.chance(1, 3), no_count_check: false, acceptor_tasks: rng.chance(1, 3), blackhole }
 }
 
 /// Backlog pressure: more connectors than the backlog admits, nobody accepts until the late
@@ -1399,7 +1422,7 @@ fn gen_pressure(rng: &mut Rng, guarded: bool, mut cfg: NetCfg, hosts: Vec<Vec<St
         ta += rng.range(0, 2) as u32;
     }
     tl.sort_by_key(|x| x.0);
-    Scenario { guarded, cfg, hosts, listeners, conns, timeline: tl, faults: Vec::new(), reorder: false, reuse: rng.chance(1, 4), no_count_check: false, acceptor_tasks: rng.chance(1, 3) }
+    Scenario { guarded, cfg, hosts, listeners, conns, timeline: tl, faults: Vec::new(), reorder: false, reuse: rng.chance(1, 4), no_count_check: false, acceptor_tasks: rng.chance(1, 3), blackhole: None }
 }
 
 impl Property for C13 {
@@ -1615,6 +1638,7 @@ mod tests {
             reuse: true,
             no_count_check: false,
             acceptor_tasks: false,
+            blackhole: None,
         }
     }
 
